@@ -152,14 +152,26 @@ theorem cleanup_fields (a : Alarm) :
   · simp
   · simpa using this
 
+theorem rearm_fields (a : Alarm) (e : Env) :
+    (rearm a e).cls = a.cls ∧ (rearm a e).nFired = a.nFired ∧ (rearm a e).nEnabled = a.nEnabled := by
+  obtain ⟨f1, f2, f3, _⟩ := activeTimer_fields a e
+  obtain ⟨_, _, _, _, u1, u2, u3, _⟩ := unsubscribe_fields a
+  rcases rearm_cases a e with ⟨_, heq⟩ | ⟨_, heq⟩
+  · rw [heq]; exact ⟨f1, f2, f3⟩
+  · rw [heq]; exact ⟨u1, u2, u3⟩
+
+theorem rearm_inv2 (a : Alarm) (e : Env) (h2 : a.nFired + 1 ≤ a.nEnabled) : Inv2 (rearm a e) := by
+  obtain ⟨_, hf, he⟩ := rearm_fields a e
+  unfold Inv2; rw [hf, he]; split <;> omega
+
 theorem refresh_ostep (a : Alarm) (e : Env) (h : Inv a) (h2 : Inv2 a) : OStep a (refresh a e) 0 false := by
   unfold refresh
   split
   · rename_i hr
     have hsome : a.timer.isSome = true := h.mp hr
-    obtain ⟨hc, hf, he, _⟩ := activeTimer_fields { a with st := .inited, timer := none, target := 0 } e
+    obtain ⟨hc, hf, he⟩ := rearm_fields { a with st := .inited, timer := none, target := 0 } e
     have : a.nFired + 1 ≤ a.nEnabled := by unfold Inv2 at h2; simpa [hsome] using h2
-    exact ⟨hc, by simpa using hf, by simpa using Nat.le_of_eq he, rearm_ostep _ e this⟩
+    exact ⟨hc, by simpa using hf, by simpa using Nat.le_of_eq he, rearm_inv2 _ e this⟩
   · exact ostep_same h2 rfl rfl rfl id false
 
 theorem ostep_trans {a b c : Alarm} {k1 k2 : Nat} (h1 : OStep a b k1 false) (h2 : OStep b c k2 false) :
@@ -233,7 +245,9 @@ theorem astep_oneshot (a : Alarm) (e : Env) (op : AOp) (hc : a.cls = .oneshot) (
       · rename_i hf
         rcases activeTimer_cases a e with ⟨ht, _⟩ | ⟨_, heq⟩
         · exact absurd ht hf
-        · rw [heq]; exact ostep_same h2 rfl rfl rfl id _
+        · rw [heq]
+          have hu : unsubscribe a = a := by unfold unsubscribe; simp [hc]
+          rw [hu]; exact ostep_same h2 rfl rfl rfl id _
     · exact ostep_same h2 rfl rfl rfl id _
   | disable =>
     obtain ⟨f1, f2, f3, f4⟩ := disable_fields a
